@@ -145,9 +145,18 @@ func (rp *replicaProc) stop() {
 
 // get sends one request to the replica process; the caller reads what reached the (shared) upstream from the parent environment
 func (rp *replicaProc) get(target, cookie string, hdr http.Header) (int, error) {
-	req, err := http.NewRequest("GET", "http://"+rp.addr+target, nil)
+	resp, err := rp.do(target, cookie, hdr)
 	if err != nil {
 		return 0, err
+	}
+	return resp.StatusCode, nil
+}
+
+// do: the same, returning the whole response (body drained)
+func (rp *replicaProc) do(target, cookie string, hdr http.Header) (*http.Response, error) {
+	req, err := http.NewRequest("GET", "http://"+rp.addr+target, nil)
+	if err != nil {
+		return nil, err
 	}
 	req.Host = tHost
 	for k, vs := range hdr {
@@ -160,9 +169,9 @@ func (rp *replicaProc) get(target, cookie string, hdr http.Header) (int, error) 
 	}
 	resp, err := rp.cl.Do(req)
 	if err != nil {
-		return 0, err
+		return nil, err
 	}
 	io.Copy(io.Discard, resp.Body)
 	resp.Body.Close()
-	return resp.StatusCode, nil
+	return resp, nil
 }
